@@ -364,7 +364,7 @@ def run(tier, seed, model_ok, spec_ok, replay=None):
     ncases = []
     for _ in range(150 if tier == "quick" else 4000):
         doc = g.document(3, 4)
-        ta = nested_tree(g, pg, doc, tuple_p=0.15)
+        ta = nested_tree(g, pg, doc, tuple_p=0.15, evaluated=True)
         tb = copy.deepcopy(ta)
         k = g.r.random()
         what = "rebuilt"
